@@ -23,6 +23,6 @@ def conds(tier):
     if not q:
         out.append(Cond("over4", ctx.mk_over3(P, 4), ctx.over_params(4), pin=4, budget=900,
                         family="F-CTX four pending overriders", encodes=ctx.ENC_CTX))
-        out.append(Cond("ctx3", ctx.mk_ctx2(P, 3, (0, 1, 2, 4, 6, 8), (1, 2, 4, 5, 7, 8, 9), 5), ctx.ctx2_params(3, 6, 7, 5), pin=3,
+        out.append(Cond("ctx3", ctx.mk_ctx2(P, 3, (0, 1, 6, 8), (1, 2, 4, 5, 7, 8, 9, 10, 13), 5), ctx.ctx2_params(3, 4, 9, 5), pin=3,
                         budget=1800, family="F-CTX three steps", encodes=ctx.ENC_CTX))
     return out
